@@ -19,6 +19,30 @@ CHECKS = {
         text="Same exact-kernel machine applied to DataPointSampler (outlier option on/off, n<=4, thorough 5), PruneRegraphSampler (n<=4, thorough 5), ParticleGibbsSubtreeSampler (3 proposals, both wirings, n<=3, thorough 4) and one real iteration of run._run_main_sampler (n<=2, one n=3). Each move has its own residual and key; the subtree move's bias is a recorded finding identified by pinned exact residuals.",
         note="Same trusted base as C01. Known finding C04-subtree-move-not-invariant suppresses only invariance failures of op=subtree (and sweeps using it); its pinned configurations must keep their recorded residuals.",
         ref="4 (C04)"),
+    "C03": dict(
+        level="exploration",
+        technique="deterministic simulation of seeded edit histories with persistence faults; refinement of the live tree against an independent executable FS-CRP reference model after every operation; manufactured same-form / different-form pairs for history independence",
+        text="Seeded histories of sampler-grammar edits (1-8 points, grids 3-11, alpha in [0.01,100] changing mid-history, outliers, restore-from-image faults). After every operation both joint densities and the fused variant are compared with a reference model assembled term by term from the statement (own grid marginal), and trees of equal / different abstract form are compared for ==, hash and equal densities. Agreement is ~1e-14 where it holds; tolerance 1e-8.",
+        note="Reference model uses the normalised top-level-clone term pinned by test_root_term. FFT branch (>= 1000 grid points) not exercised. Sampling of histories, not exhaustive.",
+        ref="4 (C03), 4.A"),
+    "C06": dict(
+        level="exploration",
+        technique="deterministic simulation of seeded edit histories with persistence faults (restore from dict/pickle/gzip/copy/TreeHolder at arbitrary steps); per-step comparison with a from-scratch rebuild; real sampler chains under a Tree monitor",
+        text="After every operation of thousands of seeded histories (placements, data-point moves, prune-regraft, subtree replacement, relabel, restores) every clone's log_p/log_r, the root vector and both joint densities equal those of a tree rebuilt from the reference forest (observed max difference ~3e-14, tolerance 1e-8); real run_phyclone_chain workloads are monitored at outermost Tree calls with sampled rebuilds.",
+        note="Histories are restricted to the grammar the samplers use. Reads per-node arrays through Tree._graph (read only).",
+        ref="4 (C06), 4.A"),
+    "C07": dict(
+        level="exploration",
+        technique="deterministic simulation: seeded edit histories with persistence faults and twin (restored vs original) execution; well-formedness and conservation invariant evaluated after every outermost Tree call and at every sampler boundary of real seeded chains",
+        text="The well-formedness predicate (single root, in-degree 1, reachability, unique names, inverse index maps, payload data = data lists, disjoint cover of exactly the inserted data, read API = graph) is evaluated after every operation of seeded histories against a reference forest, and inside real chains (all five samplers, all proposals, outliers on/off, subtree updates) after every outermost Tree call; sample_tree in/out data conservation.",
+        note="Exceptions escaping Tree methods in grammar-conformant histories count as violations; other sampler exceptions are C19's.",
+        ref="4 (C07), 4.A"),
+    "C08": dict(
+        level="exploration",
+        technique="deterministic simulation: systematic closure of particle genealogies under a reference placement model, realised through the real kernel; complete replay-DFS traversal of proposal.sample() under a simulated generator; weight telescoping against targets recomputed on fresh trees",
+        text="For every genealogy to depth 4 (thorough 5) and every next data point, for 3 proposals x outlier proposal probability {0,.1,.5,seeded} x permutation distribution present/absent x alpha: sum of exp(log_p) over the model's placements is 1, the complete outcome tree of sample() gives each tree exactly exp(log_p), sampled support = placements, incremental weights x proposals telescope to log_p + log_pdf and with the last-step correction to log_p_one + log_pdf; the real SMCSampler's swarm (no resampling) carries those weights up to its common constant.",
+        note="Candidates handed to log_p are built as ConditionalSMCSampler._get_constrained_path builds them. Exhaustive per parent state; configurations seeded.",
+        ref="4 (C08)"),
     "C09": dict(
         level="exploration",
         technique="deterministic simulation: complete replay-DFS traversal of the random-outcome tree of the order sampler under a simulated generator, compared with an enumerating reference model",
